@@ -2,6 +2,7 @@ import ErbiumModel.Util
 import ErbiumModel.Judge.C12
 import ErbiumModel.Judge.Pool
 import ErbiumModel.Judge.Dhcp
+import ErbiumModel.Judge.C08
 /-! Line-protocol driver. stdin: `<suite> <input tokens> => <implementation observation>`;
     stdout: `<correspondence verdict> | <oracle verdict>` per line. -/
 open Erbium Util
@@ -14,6 +15,8 @@ def judge (suite : String) (inp obs : List String) : Verdict :=
   | "bflag" => Judge.C12.judgeBflag inp obs
   | "pool" => Judge.Pool.judge inp obs
   | "dhcp" => Judge.Dhcp.judge inp obs
+  | "acl" => Judge.C08.judgeAcl inp obs
+  | "leasejson" => Judge.C08.judgeLeaseJson inp obs
   | _ => badInput ("unknown-suite:" ++ suite)
 
 def judgeLine (line : String) : String :=
